@@ -286,6 +286,15 @@ class WInterp:
     def __init__(self, funcs, config, depth=0):
         self.funcs, self.config, self.depth = funcs, config, depth
         self.attrs = {}
+        self.flaws = []             # (marker function, diagnosis, rule) of the wrong constructs met so far
+
+    def flawed(self, d, n, msg, rule):
+        """a recognised wrong construct yields a vector of the local frame whose entries are an uninterpreted marker: the
+        diagnosis is reported only if the marker reaches the weights the class keeps (a value that is computed and never used, or
+        used for something else, says nothing about the diagnostic)"""
+        F = sp.Function(f"flaw{len(self.flaws)}")
+        self.flaws.append((F, msg, rule))
+        return WVec(d, "L", n, ("u", lambda k, F=F: F(k)))
 
     # ---------------------------------------------------------------- expressions
     def const_int(self, v):
@@ -520,14 +529,16 @@ class WInterp:
                 if v.d is None:
                     raise WUndecided("window of a vector that is not tied to a dimension")
                 if v.d != d:
-                    raise WViolation(f"`{src(e)[:70]}` cuts a table over {_DN.get(v.d)} with the block bounds of {_DN[d]}", "C-window")
+                    return self.flawed(v.d, _NL[d], f"`{src(e)[:70]}` cuts a table over {_DN.get(v.d)} with the block bounds of {_DN[d]}", "C-window")
                 if not _same(v.n, _N[d]):
-                    raise WViolation(f"`{src(e)[:70]}` cuts a vector of length {v.n} with the block bounds of the {_N[d]} grid points: "
-                                     "the entries are shifted against the points", "C-window")
+                    if not (isinstance(sp.simplify(v.n - _N[d]), sp.Integer)):
+                        raise WUndecided(f"`{src(e)[:50]}`: length {v.n} of the vector against the {_N[d]} grid points")
+                    return self.flawed(d, _NL[d], f"`{src(e)[:70]}` cuts a vector of length {v.n} with the block bounds of the {_N[d]} grid "
+                                       "points: the entries are shifted against the points", "C-window")
                 return WVec(d, "L", _NL[d], ("w", v))
-            if lo is None and hi is not None and _same(hi, _NL[d]) and v.frame == "G":
-                raise WViolation(f"`{src(e)[:70]}` takes the first n_local entries of the global table: these belong to the first block, "
-                                 "not to this process's block [start:end)", "C-window")
+            if lo is None and hi is not None and _same(hi, _NL[d]) and v.frame == "G" and v.d == d and _same(v.n, _N[d]):
+                return self.flawed(d, _NL[d], f"`{src(e)[:70]}` takes the first n_local entries of the global table: these belong to the "
+                                   "first block, not to this process's block [start:end)", "C-window")
         raise WUndecided(f"slice `{src(e)[:50]}`")
 
     def call(self, e, env):
@@ -661,6 +672,7 @@ class WInterp:
             raise WUndecided(f"arguments of `{fv.name}`")
         sub = WInterp(self.funcs, self.config, self.depth + 1)
         sub.attrs = self.attrs
+        sub.flaws = self.flaws
         try:
             sub.block(fn.body, env)
         except WRet as r:
@@ -856,10 +868,15 @@ class WInterp:
                 return
             if not (rows.d == second and cols.d == first and rows.frame == cols.frame == "L"):
                 raise WUndecided("flat fill of an outer product whose factors are not the local r and v vectors")
-            raise WViolation(f"`{src(st)[:80]}`: the outer product (rows over {_DN.get(rows.d)}, columns over {_DN.get(cols.d)}) is {how} "
-                             f"in C order into an array whose {_DN[first]} axis precedes its {_DN[second]} axis (layouts ordered "
-                             f"{'r before v' if first == 0 else 'v before r'}): the weights are permuted among the (r,v) points "
-                             "(their total is preserved, so a constant field still gives the analytic volume)")
+            if not (_same(sh.entries[first], cols.n) and _same(sh.entries[second], rows.n)):
+                raise WUndecided("flat fill of an outer product whose extents are not those of the axes")
+            msg = (f"`{src(st)[:80]}`: the outer product (rows over {_DN.get(rows.d)}, columns over {_DN.get(cols.d)}) is {how} "
+                   f"in C order into an array whose {_DN[first]} axis precedes its {_DN[second]} axis (layouts ordered "
+                   f"{'r before v' if first == 0 else 'v before r'}): the weights are permuted among the (r,v) points "
+                   "(their total is preserved, so a constant field still gives the analytic volume)")
+            empty.filled = WTensor(sh.ndims, {first: self.flawed(first, sh.entries[first], msg, "C-axis-placement"),
+                                              second: self.flawed(second, sh.entries[second], msg, "C-axis-placement")})
+            return
         raise WUndecided(f"flat fill from {type(v).__name__}")
 
 
@@ -890,14 +907,53 @@ def _axis_spec(d, cls):
     return t0, tm, t1, "trapezoid weight"
 
 
-def weight_tensor(chk):
-    """engine W on the four constructors, one run per configuration (number of dimensions, order of the r and v axes)"""
-    placed = {}
+def _provably_differs(a, b):
+    """a != b as formulas: the difference is a non-zero polynomial / rational function of independent atoms (symbols and applied
+    uninterpreted functions such as x0(k + 1)); anything else (floor, Abs, Piecewise, ...) is not decided -> True / False / None"""
+    try:
+        d = sp.together(sp.expand(a - b))
+        n, _ = sp.fraction(d)
+        n = sp.expand(n)
+    except Exception:
+        return None
+    if n == 0 or sp.simplify(n) == 0:
+        return False
+    from sympy.core.function import AppliedUndef
+    for at in n.atoms(sp.Function):
+        if not isinstance(at, AppliedUndef):
+            return None
+    return True if n.is_polynomial(*[x for x in n.atoms(sp.Symbol, AppliedUndef)]) else None
+
+
+def _const_ratio(code, spec):
+    """the number c with code = c * spec, or None"""
+    try:
+        r = sp.simplify(sp.together(code / spec))
+    except Exception:
+        return None
+    return r if r.is_number and r.is_finite and r != 0 else None
+
+
+def weight_tensor(chk, method=None):
+    """engine W on the four constructors, one run per configuration (number of dimensions, order of the r and v axes).
+    Constructor and norm method are ONE unit: the method returns c * sum(integrand * _factor1) * _factor2 (c from `method`, None
+    when the method was not read in that form); a constant factor may sit in the r weights, the v weights, the volume factor or the
+    method - what is decided is their product.  -> (placed, {cls: [product of the constructor's scalings per configuration]})"""
+    placed, scales = {}, {}
+    method = method or {}
     for rel, cls, meth in CLASSES:
         q = f"{cls}.__init__"
         fn = chk.func(rel, q)
         funcs = _w_functions(chk, rel)
         placed[cls] = True
+        scales[cls] = []
+        c_m = (method.get(cls) or {}).get("c")
+        # AUDIT (every VIOLATED verdict on the constructor): the diagnosis speaks of `_factor1` / `_factor2` as THE weights of the
+        # diagnostic, which is true when the norm method was read as c * sum(integrand * self._factor1) * self._factor2 and nothing
+        # else (`canonical`); when the method was not read in that form (it may apply further weights or factors) the verdict is
+        # UNDECIDED
+        canonical = c_m is not None
+        not_canon = "; the norm method was not read as sum(integrand x self._factor1) x self._factor2, so whether it compensates is not decided"
         configs = [{"ndims": 4, "order": "rv"}, {"ndims": 4, "order": "vr"}] + ([{"ndims": 3, "order": "rv"}] if cls == "l2" else [])
         for cfg in configs:
             tag = f"{cls} [{cfg['ndims']}-D" + (f", {'r before v' if cfg['order'] == 'rv' else 'v before r'}]" if cfg["ndims"] == 4 else "]")
@@ -906,6 +962,7 @@ def weight_tensor(chk):
             if len(formals) != 3:
                 chk.ob("F9-weight-tensor", fn, tag, None, "constructor signature changed", file=rel, func=q)
                 placed[cls] = False
+                scales[cls].append(None)
                 continue
             env = {formals[0]: WObj("self"), formals[1]: WObj("eta_grid"), formals[2]: WObj("layout")}
             try:
@@ -916,10 +973,12 @@ def weight_tensor(chk):
             except WUndecided as e:
                 chk.ob("F9-weight-tensor", fn, tag, None, f"the construction of the weights is outside the interpreted fragment: {e}", file=rel, func=q)
                 placed[cls] = False
+                scales[cls].append(None)
                 continue
             except WViolation as e:
-                chk.ob(e.rule, fn, tag, False, str(e), file=rel, func=q)
+                chk.ob(e.rule, fn, tag, False if canonical else None, str(e) + ("" if canonical else not_canon), file=rel, func=q)
                 placed[cls] = False
+                scales[cls].append(None)
                 continue
             f1, f2 = w.attrs.get("_factor1"), w.attrs.get("_factor2")
             if isinstance(f1, WEmpty):
@@ -928,6 +987,32 @@ def weight_tensor(chk):
                 chk.ob("F9-weight-tensor", fn, tag, None, f"self._factor1 / self._factor2 not obtained as a weight tensor and a scalar "
                        f"({type(f1).__name__}, {type(f2).__name__})", file=rel, func=q)
                 placed[cls] = False
+                scales[cls].append(None)
+                continue
+            # recognised wrong constructs whose value reached the weights that are kept
+            reached = []
+            for v in f1.factors.values():
+                if isinstance(v, WFresh):
+                    v = v.vec()
+                if isinstance(v, WVec):
+                    try:
+                        vv = v.shape[1] if v.shape[0] == "w" else v
+                        r0, rm, r1 = vv.regions()
+                        exprs = [sp.sympify(r0), sp.sympify(rm(_K)), sp.sympify(r1)]
+                    except Exception:
+                        exprs = []
+                    for F, msg, rule in w.flaws:
+                        if any(x.has(F) for x in exprs) and (msg, rule) not in reached:
+                            reached.append((msg, rule))
+            if isinstance(f2, sp.Basic):
+                for F, msg, rule in w.flaws:
+                    if f2.has(F) and (msg, rule) not in reached:
+                        reached.append((msg, rule))
+            if reached:
+                for msg, rule in reached:
+                    chk.ob(rule, fn, tag, False if canonical else None, msg + ("" if canonical else not_canon), file=rel, func=q)
+                placed[cls] = False
+                scales[cls].append(None)
                 continue
             # placement: which axes carry weights, and of which dimension
             want_axes = [0, 3] if cfg["ndims"] == 4 else [0]
@@ -944,15 +1029,18 @@ def weight_tensor(chk):
                     if not (isinstance(v, WVec) and v.frame == "L" and v.d == d and _same(v.n, _NL[d])):
                         okp, whyp = False, (f"the factor on the axis carrying {_DN[d]} is a vector over {_DN.get(getattr(v, 'd', None))} "
                                             f"({getattr(v, 'frame', '?')} frame, length {getattr(v, 'n', '?')})")
+            if okp is False and not canonical:
+                okp, whyp = None, whyp + not_canon
             chk.ob("C-axis-placement", fn, tag, okp, whyp, file=rel, func=q)
             if not okp:
                 placed[cls] = False
+                scales[cls].append(None)
                 continue
-            # the factor of each axis against the quadrature rule of the global grid
+            # the factor of each axis against the quadrature rule of the global grid: equal up to ONE constant, or different
+            axis_res = {}                   # d -> (ratio or None, (where, code, spec) of the first difference, note, what)
             for d in want_axes:
                 v = f1.factors[d]
                 s0, sm, s1, what = _axis_spec(d, cls)
-                rule = "F9-jacobian" if d == 0 else "F9-trapezoid-weights"
                 scal = f1.scalar if d == 0 else sp.Integer(1)
                 if v.shape[0] == "w":
                     g0, gm, g1 = v.shape[1].regions()
@@ -966,20 +1054,64 @@ def weight_tensor(chk):
                              ("the last point of a block", g1 * scal, sm(s + _NL[d] - 1))]
                     note = (" - the weights are built from the points of the local block, so every process treats the ends of its own "
                             "block as ends of the domain")
-                diff = [(w_, g_, s_) for w_, g_, s_ in pairs if not _same(g_, s_)]
-                ok = not diff
-                chk.ob(rule, fn, f"{tag}: factor on the {_DN[d]} axis", ok,
-                       f"{what} of the global {_DN[d]} grid, cut to the local block" if ok else
-                       f"at {diff[0][0]} the code gives {sp.simplify(diff[0][1])}, the rule ({what}) needs {sp.simplify(diff[0][2])}" +
-                       (note if v.shape[0] != "w" else ""), file=rel, func=q)
+                ratios = [_const_ratio(g_, s_) for _, g_, s_ in pairs]
+                rho = ratios[0] if all(r_ is not None for r_ in ratios) and all(sp.simplify(r_ - ratios[0]) == 0 for r_ in ratios) else None
+                first = None
+                if rho is None:
+                    # not one constant multiple of the rule: where, and is the difference proved?
+                    base = next((r_ for r_ in ratios if r_ is not None), sp.Integer(1))
+                    for w_, g_, s_ in pairs:
+                        if not _same(g_, base * s_):
+                            first = (w_, g_, s_ * base, _provably_differs(g_, base * s_), base)
+                            break
+                axis_res[d] = (rho, first, note, what)
             want2 = _H[1] * _H[2] * (sp.Rational(1, 2) if cls == "KineticEnergy" else 1)
-            ok2 = _same(f2, want2)
-            if not ok2 and not (f2.free_symbols <= {_H[1], _H[2]}):
-                ok2 = None          # written with other quantities (number of points, pi, ...): not compared
-            chk.ob("F9-volume-factor", fn, f"{tag}: _factor2", ok2,
-                   ("1/2 " if cls == "KineticEnergy" else "") + "dq dz (uniform periodic theta and z: rectangle rule)" if ok2 else
-                   f"_factor2 = {sp.simplify(f2)}, expected {want2} (h1, h2 the spacings of theta and z)", file=rel, func=q)
-    return placed
+            rho2 = _const_ratio(f2, want2)
+            rhos = [axis_res[d][0] for d in want_axes] + [rho2]
+            K = None
+            if all(r_ is not None for r_ in rhos):
+                K = sp.Integer(1)
+                for r_ in rhos:
+                    K = K * r_
+            total_ok = None if (K is None or c_m is None) else bool(sp.simplify(K * c_m - 1) == 0)
+            parts = ", ".join(f"{n_} x {r_}" for n_, r_ in zip([f"{_DN[d]} weights" for d in want_axes] + ["volume factor"], rhos) if r_ is not None) + \
+                (f", norm method x {c_m}" if c_m is not None else "")
+
+            def scaled_verdict(rho_, place):
+                """verdict for a part that is the documented one times the constant rho_ != 1"""
+                if total_ok is True:
+                    return True, (f"{place} is the documented one times {rho_}; the constant is compensated elsewhere in the constructor / the "
+                                  f"norm method ({parts}): the product of all scalings is 1")
+                if total_ok is False:
+                    return False, (f"{place} is the documented one times {rho_}, and the scalings of constructor and norm method ({parts}) "
+                                   f"multiply to {sp.simplify(K * c_m)}, not 1: the diagnostic is off by that factor")
+                return None, (f"{place} is the documented one times {rho_}; whether the other parts compensate the constant was not "
+                              f"established ({parts or 'their scalings were not obtained'})")
+            for d in want_axes:
+                rho, first, note, what = axis_res[d]
+                rule = "F9-jacobian" if d == 0 else "F9-trapezoid-weights"
+                if rho is not None and sp.simplify(rho - 1) == 0:
+                    ok, why = True, f"{what} of the global {_DN[d]} grid, cut to the local block"
+                elif rho is not None:
+                    ok, why = scaled_verdict(rho, f"the factor on the {_DN[d]} axis ({what})")
+                else:
+                    w_, g_, s_, proved, base = first if first is not None else ("?", sp.Integer(0), sp.Integer(0), None, 1)
+                    ok = False if (proved and canonical) else None
+                    why = (f"at {w_} the code gives {sp.simplify(g_)}, the rule ({what}" + (f", times {base}" if base != 1 else "") +
+                           f") needs {sp.simplify(s_)}" + (note if f1.factors[d].shape[0] != "w" else "") +
+                           ("" if proved else " (the two formulas were not proved different)") + ("" if canonical or not proved else not_canon))
+                chk.ob(rule, fn, f"{tag}: factor on the {_DN[d]} axis", ok, why, file=rel, func=q)
+            if rho2 is not None and sp.simplify(rho2 - 1) == 0:
+                ok2, why2 = True, ("1/2 " if cls == "KineticEnergy" else "") + "dq dz (uniform periodic theta and z: rectangle rule)"
+            elif rho2 is not None:
+                ok2, why2 = scaled_verdict(rho2, "_factor2 (the volume factor " + ("1/2 " if cls == "KineticEnergy" else "") + "dq dz)")
+            else:
+                ok2 = False if (f2.free_symbols <= {_H[1], _H[2]} and _provably_differs(f2, want2) and canonical) else None
+                why2 = f"_factor2 = {sp.simplify(f2)}, expected {want2} (h1, h2 the spacings of theta and z)" + \
+                    ("" if ok2 is False else " - written with other quantities or not proved different: not compared" if canonical else not_canon)
+            chk.ob("F9-volume-factor", fn, f"{tag}: _factor2", ok2, why2, file=rel, func=q)
+            scales[cls].append(K)
+    return placed, scales
 
 
 class _NotElementwise:
@@ -990,8 +1122,9 @@ class _NotElementwise:
     NAMES = {"outer", "einsum", "kron", "tensordot", "dot", "matmul", "meshgrid", "concatenate", "stack", "hstack", "vstack", "append",
              "ix_", "inner", "vdot", "cross", "convolve", "broadcast_to", "tile", "repeat", "column_stack", "interp"}
 
-    def __init__(self, chk):
+    def __init__(self, chk, weights_established=False):
         object.__setattr__(self, "_chk", chk)
+        object.__setattr__(self, "_established", weights_established)
 
     def __getattr__(self, k):
         return getattr(self._chk, k)
@@ -1000,6 +1133,14 @@ class _NotElementwise:
         setattr(self._chk, k, v)
 
     def ob(self, rule, node, construct, ok, msg="", **kw):
+        if ok is False and self._established:
+            # AUDIT: engine C types every subscript expression of the constructor, whether or not its value reaches the weights.  When
+            # the symbolic reading of the constructor (engine W) has established, for every configuration, that the weights the class
+            # keeps are the [start:end) blocks of the documented tables on the right axes, an expression engine C objects to does not
+            # feed them (a value computed and not used, or used for something else): not a statement about the diagnostic
+            self._chk.note(f"engine C objects to `{str(construct)[:60]}` ({msg[:80]}); the weights kept by the class were established "
+                           "by the weight-tensor rules: the expression does not reach them")
+            return None
         if ok is False and isinstance(node, ast.Call) and "element-wise combination" in msg:
             f = node.func
             name = f.attr if isinstance(f, ast.Attribute) else f.id if isinstance(f, ast.Name) else ""
@@ -1024,7 +1165,7 @@ def weight_windows(chk, placed=None):
     for rel, cls, meth in CLASSES:
         fn = chk.func(rel, f"{cls}.__init__")
         env = {"eta_grid": eta_grid_tag(), "layout": layout_param()}
-        a = IS(_NotElementwise(chk), rel, f"{cls}.__init__", fn, env, Ctx(dist_dims=None), {})
+        a = IS(_NotElementwise(chk, bool(placed and placed.get(cls))), rel, f"{cls}.__init__", fn, env, Ctx(dist_dims=None), {})
         a.run()
         for name, d in (("mydrMult", 0), ("my_r", 0), ("mydvMult", 3), ("my_v", 3)):
             t = a.env.get(name)
@@ -1179,26 +1320,43 @@ class _SubstSrc(ast.NodeTransformer):
         return n
 
 
-def integrands(chk):
-    """value returned by the norm method, as a formula of the field f = a + i b, the weights and the volume factor"""
+def _varies(r, syms):
+    """is the formula r provably NOT a constant in the symbols: some partial derivative is provably non-zero (sympy's own zero
+    test) -> True / None"""
+    for s_ in syms:
+        if s_ in getattr(r, "free_symbols", set()):
+            try:
+                if sp.diff(r, s_).equals(0) is False:
+                    return True
+            except Exception:
+                pass
+    return None
+
+
+def integrand_info(chk):
+    """value returned by each norm method, as a formula of the field f = a + i b, the weights w = self._factor1 and the volume factor
+    F2 = self._factor2 -> {cls: info}; no obligation is recorded here (constructor and method are decided together)"""
     from ..resolve import inline_locals, expand
     from ..npsym import SUMR
     a_, b_ = sp.symbols("a b", real=True)
     w, F2 = sp.Symbol("w", positive=True), sp.Symbol("F2", positive=True)
     f_ = a_ + sp.I * b_
     want_i = {"l2": (a_ ** 2 + b_ ** 2) * w, "l1": sp.Abs(a_) * w, "nParticles": a_ * w, "KineticEnergy": a_ * w}
-    text = {"l2": "|f|^2", "l1": "|Re f|", "nParticles": "Re f", "KineticEnergy": "Re f"}
+    out = {}
     for rel, cls, meth in CLASSES:
         m = chk.func(rel, f"{cls}.{meth}")
         q = f"{cls}.{meth}"
+        info = {"rel": rel, "q": q, "node": m, "c": None, "why": None, "oki": None, "oka": None, "got": None, "want": want_i[cls]}
+        out[cls] = info
         if len(m.args.args) != 2:
-            chk.ob("F9-integrand", m, q, None, "signature changed", file=rel, func=q)
+            info["why"] = "signature changed"
             continue
         arg = m.args.args[1].arg
         rets = [n for n in ast.walk(m) if isinstance(n, ast.Return) and n.value is not None]
         if len(rets) != 1:
-            chk.ob("F9-integrand", m, q, None, f"{len(rets)} return statements: not recognised", file=rel, func=q)
+            info["why"] = f"{len(rets)} return statements: not recognised"
             continue
+        info["node"] = rets[0]
         env_m = _straight_line_env(m, inline_locals(m))
         e0 = expand(rets[0].value, env_m)
         outs = _out_stores(m, env_m) if rets[0] in m.body else {}
@@ -1213,34 +1371,88 @@ def integrands(chk):
         try:
             got = n_.ev(e)
         except Undecided as ex:
-            chk.ob("F9-integrand", rets[0], q, None, f"returned value outside the extractable fragment: {ex}", file=rel, func=q)
-            continue
-        want = SUMR(want_i[cls], sp.Symbol("axisall")) * F2
-        sums = list(got.atoms(SUMR)) if hasattr(got, "atoms") else []
-        oki = None              # several sums / sums along single axes: not compared
-        if len(sums) == 1 and str(sums[0].args[1]) == "axisall":
-            inner = sp.simplify(sp.expand(sums[0].args[0]))
-            rest = sp.simplify(got / sums[0])
-            oki = bool(sp.simplify(inner - sp.expand(want_i[cls])) == 0 and sp.simplify(rest - F2) == 0)
+            info["why"] = f"returned value outside the extractable fragment: {ex}"
+            got = None
+        info["got"] = got
+        if got is not None:
+            sums = list(got.atoms(SUMR)) if hasattr(got, "atoms") else []
+            # several sums / sums along single axes: not compared
+            if len(sums) == 1 and str(sums[0].args[1]) == "axisall":
+                inner = sp.simplify(sp.expand(sums[0].args[0]))
+                rest = sp.simplify(got / sums[0])
+                c1 = _const_ratio(inner, sp.expand(want_i[cls]))
+                c2 = _const_ratio(rest, F2)
+                if c1 is not None and c2 is not None:
+                    info["c"] = sp.simplify(c1 * c2)
+                    info["oki"] = True if info["c"] == 1 else "scaled"
+                else:
+                    # AUDIT: "the method returns another formula" = the summand is provably not a constant multiple of the documented
+                    # integrand (its ratio to it provably varies with the field or the weights), or what multiplies the sum is a
+                    # formula of F2 alone that is not a constant multiple of F2; otherwise not decided
+                    r1 = sp.simplify(inner / sp.expand(want_i[cls])) if c1 is None else None
+                    r2 = sp.simplify(rest / F2) if c2 is None else None
+                    diff1 = r1 is not None and inner.free_symbols <= {a_, b_, w} and _varies(r1, (a_, b_, w))
+                    diff2 = r2 is not None and rest.free_symbols <= {F2} and _varies(r2, (F2,))
+                    info["oki"] = False if (diff1 or diff2) else None
         # refused in any layout other than the one the weights were built for
         cmp_ = [n for n in ast.walk(m) if isinstance(n, ast.Compare) and len(n.ops) == 1 and
                 {src(n.left), src(n.comparators[0])} == {"self._layout", f"{arg}.currentLayout"}]
         # any other test that speaks of a layout (another attribute, a helper, a name comparison): not recognised, not an alarm
         mentions = any(isinstance(n, (ast.Assert, ast.If, ast.Raise)) and "layout" in src(n.test if not isinstance(n, ast.Raise) else n).lower()
                        for n in ast.walk(m)) or any(isinstance(n, ast.Attribute) and src(n) == "self._layout" for n in ast.walk(m)) or \
-            any(isinstance(n, ast.Call) and isinstance(n.func, ast.Attribute) and src(n.func.value) == "self" for n in ast.walk(m))
-        oka = True if any(isinstance(parent(c), (ast.Assert, ast.If)) for c in cmp_) else (None if mentions else False)
+            any(isinstance(n, ast.Call) and isinstance(n.func, ast.Attribute) and src(n.func.value) == "self" for n in ast.walk(m)) or \
+            bool(m.decorator_list)
+        if not mentions:
+            # caller + callee: the test may have moved to the callers (the collector checks the layouts before it calls the norms)
+            try:
+                colf = chk.mod(U.DIAG).func("DiagnosticCollector.collect")
+                mentions = any(isinstance(n, (ast.Assert, ast.If, ast.Raise)) and "layout" in src(n).lower() for n in ast.walk(colf))
+            except Exception:
+                mentions = True
+        # AUDIT: "no longer refuses another layout" = neither the method (directly, through a helper of the class or a decorator)
+        # nor the collector's collect tests anything that speaks of a layout
+        info["oka"] = True if any(isinstance(parent(c), (ast.Assert, ast.If)) for c in cmp_) else (None if mentions else False)
+    return out
+
+
+def integrands_emit(chk, info, scales):
+    text = {"l2": "|f|^2", "l1": "|Re f|", "nParticles": "Re f", "KineticEnergy": "Re f"}
+    for rel, cls, meth in CLASSES:
+        i = info[cls]
+        q = i["q"]
+        if i["got"] is None:
+            chk.ob("F9-integrand", i["node"], q, None, i["why"] or "returned value not recognised", file=rel, func=q)
+            continue
+        oki, oka, c, got = i["oki"], i["oka"], i["c"], i["got"]
+        Ks = scales.get(cls) or []
+        if oki == "scaled":
+            # the documented formula times the constant c: constructor and method are one unit
+            if Ks and all(k is not None for k in Ks):
+                if all(sp.simplify(k * c - 1) == 0 for k in Ks):
+                    oki, note = True, f" (the method applies the constant {c}, the constructor its inverse: the product is the documented weight)"
+                elif all(sp.simplify(k - 1) == 0 for k in Ks):
+                    oki, note = False, ""
+                else:
+                    oki, note = None, ""
+            else:
+                oki, note = None, ""
+        else:
+            note = ""
         ok = False if (oki is False or oka is False) else None if (oki is None or oka is None) else True
         if ok:
-            why = text[cls] + " x local weights, summed, x volume factor; refused in any layout other than the one the weights were built for"
+            why = text[cls] + " x local weights, summed, x volume factor; refused in any layout other than the one the weights were built for" + note
         elif oki is False:
-            why = f"the method returns {got} (f = a + i b, w the weight array, F2 the volume factor); the diagnostic is sum({want_i[cls]}) * F2"
+            why = (f"the method returns {got} (f = a + i b, w the weight array, F2 the volume factor); the diagnostic is sum({i['want']}) * F2" +
+                   (f": the constant {c} is not compensated by the constructor, whose weights and volume factor are the documented ones" if c is not None else ""))
         elif oka is False:
-            why = ("the method no longer compares the layout of the grid with the layout the weights were built for: in any other layout "
-                   "the weights are applied to the wrong axes (or broadcast)")
+            why = ("neither the method nor the collector that calls it compares the layout of the grid with the layout the weights were "
+                   "built for: in any other layout the weights are applied to the wrong axes (or broadcast)")
+        elif c is not None and c != 1:
+            why = (f"the method returns {got}: the documented formula times {c}; whether the constructor compensates the constant was not "
+                   "established (see the obligations on the constructor)")
         else:
             why = f"returned value {got} / layout test not recognised"
-        chk.ob("F9-integrand", rets[0], q, ok, why, file=rel, func=q)
+        chk.ob("F9-integrand", i["node"], q, ok, why, file=rel, func=q)
 
 
 def coordinates_read_only(chk):
@@ -1276,6 +1488,24 @@ def _single_def(fn, name):
     d = [n for n in ast.walk(fn) if isinstance(n, ast.Assign) and len(n.targets) == 1 and isinstance(n.targets[0], ast.Name)
          and n.targets[0].id == name]
     return d[0].value if len(d) == 1 else None
+
+
+def _local_value(fn, name):
+    """the expression a local is bound to when it is bound exactly once in fn: `x = e`, or `x, y = e1, e2` (element-wise)"""
+    stores = [n for n in ast.walk(fn) if isinstance(n, ast.Name) and n.id == name and isinstance(n.ctx, ast.Store)]
+    if len(stores) != 1 or name in {a.arg for a in fn.args.args}:
+        return None
+    for n in ast.walk(fn):
+        if isinstance(n, ast.Assign) and len(n.targets) == 1:
+            t = n.targets[0]
+            if isinstance(t, ast.Name) and t.id == name:
+                return n.value
+            if isinstance(t, (ast.Tuple, ast.List)) and isinstance(n.value, (ast.Tuple, ast.List)) and len(t.elts) == len(n.value.elts) and \
+                    not any(isinstance(x, ast.Starred) for x in list(t.elts) + list(n.value.elts)):
+                for x, y in zip(t.elts, n.value.elts):
+                    if isinstance(x, ast.Name) and x.id == name:
+                        return y
+    return None
 
 
 def _row_writes(col, table="self.diagnostics"):
@@ -1505,6 +1735,9 @@ def _range_text(n):
             return src(n)
         lo = src(n.lower) if n.lower is not None else "0"
         hi = src(n.upper) if n.upper is not None else ""
+        # every array of the collector has saveStep slots (read off the allocations: rule `diagnostics table: rows x slots`)
+        if hi in ("self.saveStep", "saveStep"):
+            hi = ""
         return ":" if (lo == "0" and hi == "") else f"{lo}:{hi}"
     return src(n)
 
@@ -1717,6 +1950,297 @@ def write_back_table_views(mod, cls_name, table="diagnostics"):
     return [f"self.{v} = {src(views[v][2].value)}" for v in sorted(done)]
 
 
+# ---- number kinds of scalar expressions (is a value an integer or a float, whatever its magnitude): a two-point abstract domain
+# with `unknown` on top.  Only constructs whose result kind follows from the kinds of the operands are modelled; everything else
+# is unknown, at the point where it is met.
+_INT, _FLT = "int", "float"
+_INT_WORDS = {"int", "integer", "int64", "int32", "intp", "int_", "integral"}
+_FLT_WORDS = {"float", "double", "real", "float64", "float32", "float_", "floating"}
+_TYPE_NOISE = {"optional", "union", "none", "np", "numpy", "numbers", "typing", "or"}
+
+
+def _kind_of_type_text(text):
+    """'int' / 'float' for the text of an annotation or of a numpydoc type (`float`, `float, optional`, `Union[int, float]`):
+    float as soon as a floating type is admitted, int when only integer types are, None for anything else"""
+    import re
+    words = {w.lower() for w in re.findall(r"[A-Za-z_][A-Za-z_0-9]*", text)} - _TYPE_NOISE
+    if not words:
+        return None
+    if words & _FLT_WORDS and words <= (_FLT_WORDS | _INT_WORDS):
+        return _FLT
+    if words <= _INT_WORDS:
+        return _INT
+    return None
+
+
+def _documented_kinds(fn):
+    """parameter -> kind, from the annotation and from the numpydoc lines `name : type` of the docstring (a parameter documented
+    float in either place may be a float); with the text the kind was read from"""
+    import re
+    out = {}
+    doc = ast.get_docstring(fn, clean=True) or ""
+    params = {a.arg for a in fn.args.args + fn.args.kwonlyargs}
+    for m_ in re.finditer(r"^[ \t]*(\w+)[ \t]*:[ \t]*([^\n]+)$", doc, re.M):
+        if m_.group(1) in params:
+            k = _kind_of_type_text(m_.group(2))
+            if k:
+                out[m_.group(1)] = (k, f"documented `{m_.group(1)} : {m_.group(2).strip()}`")
+    for a in fn.args.args + fn.args.kwonlyargs:
+        if a.annotation is None:
+            continue
+        text = a.annotation.value if isinstance(a.annotation, ast.Constant) and isinstance(a.annotation.value, str) else src(a.annotation)
+        k = _kind_of_type_text(text)
+        if k is None:
+            continue
+        if a.arg not in out or k == _FLT or out[a.arg][0] != _FLT:
+            out[a.arg] = (k, f"annotated `{a.arg}: {text}`")
+    return out
+
+
+class _Kinds:
+    """kind (int / float / unknown) of scalar expressions of one method; `self.<a>` through every binding of the attribute in the
+    class (evaluated in the method that binds it, with that method's documented parameter kinds)"""
+    _TO_INT = {"int", "math.floor", "math.ceil", "math.trunc", "operator.index", "len", "np.int64", "np.int32", "np.intp", "np.int_",
+               "numpy.int64", "numpy.intp", "np.int"}
+    _TO_FLT = {"float", "np.float64", "numpy.float64", "np.floor", "np.ceil", "np.rint", "np.trunc", "np.fix", "np.sqrt", "math.sqrt",
+               "numpy.floor", "numpy.ceil", "numpy.rint", "np.round", "np.around", "np.exp", "np.log", "math.exp", "math.log", "math.fmod"}
+
+    def __init__(self, cls_node):
+        self.cls = cls_node
+        self._attr = {}
+        self.leaves = []            # (text of the leaf, why it is a float) met while an expression was found to be a float
+        self.local_leaves = {}      # local name -> the leaves of the value it was last assigned
+
+    def attr(self, name, visiting=()):
+        if name in self._attr:
+            return self._attr[name]
+        if self.cls is None or name in visiting:
+            return None, ""
+        kinds, why = set(), ""
+        for m in [st for st in self.cls.body if isinstance(st, ast.FunctionDef)]:
+            env = {p: kw[0] for p, kw in _documented_kinds(m).items()}
+            whys = {p: kw[1] for p, kw in _documented_kinds(m).items()}
+            for n in ast.walk(m):
+                tg = n.targets if isinstance(n, ast.Assign) else [n.target] if isinstance(n, (ast.AugAssign, ast.AnnAssign)) else \
+                    [n.target] if isinstance(n, (ast.For, ast.comprehension, ast.NamedExpr)) else \
+                    [n.optional_vars] if isinstance(n, ast.withitem) and n.optional_vars is not None else []
+                flat = [y for x in tg for y in ast.walk(x)]
+                if not any(isinstance(y, ast.Attribute) and src(y.value) == "self" and y.attr == name and isinstance(y.ctx, ast.Store)
+                           for y in flat):
+                    continue
+                if not (isinstance(n, ast.Assign) and len(n.targets) == 1 and isinstance(n.targets[0], ast.Attribute)):
+                    kinds.add(None)             # bound by unpacking / updated in place / a loop target: not followed
+                    continue
+                # the value is read with the parameters of the binding method only: locals of that method are not followed here
+                if isinstance(n.value, ast.Name) and n.value.id in env and \
+                        sum(1 for x in ast.walk(m) if isinstance(x, ast.Name) and x.id == n.value.id and isinstance(x.ctx, ast.Store)) == 0:
+                    kinds.add(env[n.value.id])
+                    why = f"`{src(n)}` in {m.name}, {whys[n.value.id]}"
+                elif isinstance(n.value, ast.Constant) and type(n.value.value) in (int, float):
+                    kinds.add(_INT if type(n.value.value) is int else _FLT)
+                    why = f"`{src(n)}` in {m.name}"
+                elif isinstance(n.value, ast.Call) and src(n.value.func) in self._TO_INT:
+                    kinds.add(_INT)
+                    why = f"`{src(n)[:50]}` in {m.name}"
+                else:
+                    kinds.add(None)
+        k = kinds.pop() if len(kinds) == 1 else None
+        self._attr[name] = (k, why if k else "")
+        return self._attr[name]
+
+    def of(self, e, env, whys):
+        """kind of expression e under the kinds `env` of the local names"""
+        if isinstance(e, ast.Constant):
+            if isinstance(e.value, bool) or type(e.value) is int:
+                return _INT
+            return _FLT if type(e.value) is float else None
+        if isinstance(e, ast.Name):
+            k = env.get(e.id)
+            if k == _FLT and e.id in self.local_leaves:
+                self.leaves.extend(self.local_leaves[e.id])        # a local: the float values it was computed from
+            elif k == _FLT and e.id in whys:
+                self.leaves.append((e.id, whys[e.id]))
+            return k
+        if isinstance(e, ast.Attribute):
+            if isinstance(e.value, ast.Name) and e.value.id == "self":
+                k, why = self.attr(e.attr)
+                if k == _FLT:
+                    self.leaves.append((src(e), why))
+                return k
+            if src(e) in ("np.pi", "math.pi", "np.e", "math.e", "np.inf", "math.inf"):
+                return _FLT
+            return None
+        if isinstance(e, ast.UnaryOp):
+            if isinstance(e.op, ast.Not):
+                return _INT
+            k = self.of(e.operand, env, whys)
+            return k if isinstance(e.op, (ast.USub, ast.UAdd)) or k == _INT else None
+        if isinstance(e, ast.BinOp):
+            a, b = self.of(e.left, env, whys), self.of(e.right, env, whys)
+            if isinstance(e.op, (ast.Add, ast.Sub, ast.Mult, ast.FloorDiv, ast.Mod)):
+                # Python and numpy scalars alike: a float operand makes the result a float (7.0 // 2 == 3.0, 7.0 % 2 == 1.0)
+                return _FLT if _FLT in (a, b) else _INT if (a, b) == (_INT, _INT) else None
+            if isinstance(e.op, ast.Div):
+                return _FLT if (_FLT in (a, b) or (a, b) == (_INT, _INT)) else None
+            if isinstance(e.op, ast.Pow):
+                if _FLT in (a, b):
+                    return _FLT
+                return _INT if (a, b) == (_INT, _INT) and isinstance(e.right, ast.Constant) and type(e.right.value) is int and \
+                    e.right.value >= 0 else None
+            if isinstance(e.op, (ast.BitAnd, ast.BitOr, ast.BitXor, ast.LShift, ast.RShift)):
+                return _INT if (a, b) == (_INT, _INT) else None
+            return None
+        if isinstance(e, ast.Compare):
+            return _INT                             # a truth value
+        if isinstance(e, ast.IfExp):
+            a, b = self.of(e.body, env, whys), self.of(e.orelse, env, whys)
+            return a if a == b else None
+        if isinstance(e, ast.Call):
+            f = src(e.func)
+            if f in self._TO_INT and not any(isinstance(a, ast.Starred) for a in e.args):
+                return _INT
+            if f in self._TO_FLT and e.args and not e.keywords:
+                for a in e.args:
+                    self.of(a, env, whys)        # (for the leaves)
+                self.leaves.append((src(e)[:40], f"`{f}` returns a floating-point number, also for a whole value"))
+                return _FLT
+            if isinstance(e.func, ast.Attribute) and e.func.attr == "astype" and len(e.args) == 1 and \
+                    _kind_of_type_text(src(e.args[0])) is not None:
+                return _kind_of_type_text(src(e.args[0]))
+            if f in ("abs", "min", "max") and e.args and not e.keywords and not any(isinstance(a, ast.Starred) for a in e.args):
+                ks = {self.of(a, env, whys) for a in e.args}
+                return ks.pop() if len(ks) == 1 else None
+            return None
+        return None
+
+
+def _kinds_at_uses(fn, wanted, kinds, env, whys):
+    """forward pass over the statements of fn with the kinds of the local names; -> {id(node): kind} for the expression nodes in
+    `wanted` (ids), each evaluated with the kinds that hold where its statement stands.  Names assigned inside loops / try / with are
+    unknown from there on; after an `if` a name keeps its kind only when both arms agree."""
+    found = {}
+
+    def look(nodes, env):
+        for root in nodes:
+            if root is None:
+                continue
+            for n in ast.walk(root):
+                if id(n) in wanted and id(n) not in found:
+                    kinds.leaves = []
+                    found[id(n)] = (kinds.of(n, env, whys), list(dict.fromkeys(kinds.leaves)))
+
+    def stored(st):
+        return {n.id for n in ast.walk(st) if isinstance(n, ast.Name) and isinstance(n.ctx, ast.Store)}
+
+    def block(stmts, env):
+        for st in stmts:
+            if isinstance(st, ast.If):
+                look([st.test], env)
+                e1, e2 = block(st.body, dict(env)), block(st.orelse, dict(env))
+                env = {k: e1.get(k) for k in set(e1) | set(e2) if e1.get(k) == e2.get(k)}
+                continue
+            if isinstance(st, (ast.For, ast.While, ast.With, ast.Try)):
+                look([getattr(st, "iter", None), getattr(st, "test", None)] + [i.context_expr for i in getattr(st, "items", [])], env)
+                for nm in stored(st):
+                    env[nm] = None
+                for f_ in ("body", "orelse", "finalbody"):
+                    block(getattr(st, f_, []) or [], dict(env))
+                for h in getattr(st, "handlers", []):
+                    block(h.body, dict(env))
+                for nm in stored(st):
+                    env[nm] = None
+                continue
+            if isinstance(st, (ast.FunctionDef, ast.ClassDef)):
+                continue
+            look([st], env)
+            tname, val = None, None
+            if isinstance(st, ast.Assign) and len(st.targets) == 1 and isinstance(st.targets[0], ast.Name):
+                tname, val = st.targets[0].id, st.value
+            elif isinstance(st, ast.AugAssign) and isinstance(st.target, ast.Name):
+                tname, val = st.target.id, ast.BinOp(left=ast.Name(id=st.target.id, ctx=ast.Load()), op=st.op, right=st.value)
+            elif isinstance(st, ast.AnnAssign) and isinstance(st.target, ast.Name) and st.value is not None:
+                tname, val = st.target.id, st.value
+            if tname is not None:
+                kinds.leaves = []
+                env[tname] = kinds.of(val, env, whys)
+                kinds.local_leaves[tname] = list(dict.fromkeys(kinds.leaves))
+            else:
+                for nm in stored(st):
+                    env[nm] = None
+                    kinds.local_leaves.pop(nm, None)
+        return env
+    block(fn.body, dict(env))
+    return found
+
+
+def _step_with_tolerance(num, x):
+    """is `num` the step number floor(x), x = t / dt, computed with a guard against rounding: floor(x * c) with 1 <= c <= 1 + 1e-6,
+    floor(x + c) with 0 <= c <= 1/2, or x rounded to the nearest integer?  (x = k + O(1e-12) for a time accumulated as t += dt:
+    all of these are k.)  -> description or None"""
+    if not isinstance(num, sp.Basic):
+        return None
+    if num.func == sp.floor and len(num.args) == 1:
+        a = num.args[0]
+        r = sp.simplify(a / x)
+        if r.is_number and r.is_real and 1 <= r <= 1 + sp.Rational(1, 10 ** 6):
+            return f"floor(t / dt * {sp.nsimplify(r)})"
+        d = sp.simplify(a - x)
+        if d.is_number and d.is_real and 0 <= d <= sp.Rational(1, 2):
+            return f"floor(t / dt + {d})"
+    if str(num.func) == "round" and len(num.args) == 1 and sp.simplify(num.args[0] - x) == 0:
+        return "round(t / dt)"
+    return None
+
+
+def slot_index_integral(chk, col, init, rows, F, Q):
+    """E6-slot-index-integral: the expression that subscripts the slot axis of the diagnostics table is an integer for every
+    documented type of the arguments of collect: a `//` / `%` / `/` chain on a value documented or annotated float stays a float
+    (Python and numpy scalars alike) and a float is not a valid index of a numpy array (IndexError), so such a chain must pass
+    through int(...) (or an integer floor: math.floor) before it subscripts the table."""
+    what = "collect: the slot index into self.diagnostics is an integer for every documented argument type"
+    slot_nodes = getattr(rows, "slot_nodes", {}) if rows else {}
+    alloc = [n for n in ast.walk(init) if isinstance(n, ast.Assign) and src(n.targets[0]) == "self.diagnostics"]
+    is_np = len(alloc) == 1 and isinstance(alloc[0].value, ast.Call) and src(alloc[0].value.func) in \
+        ("np.zeros", "np.empty", "np.ndarray", "np.full", "np.ones", "numpy.zeros", "numpy.empty")
+    if not slot_nodes or not is_np:
+        chk.ob("E6-slot-index-integral", col, what, None, "the stores of collect into the table (or the allocation of the table as a "
+               "numpy array) were not recognised: the slot index was not found", file=F, func=Q + "collect")
+        return
+    cls_ = parent(col) if isinstance(parent(col), ast.ClassDef) else None
+    kinds = _Kinds(cls_)
+    doc = _documented_kinds(col)
+    env = {p: k for p, (k, _) in doc.items()}
+    whys = {p: w for p, (_, w) in doc.items()}
+    # a parameter re-bound in the method is a local from there on: the forward pass sees the assignment
+    found = _kinds_at_uses(col, {id(n) for n in slot_nodes.values()}, kinds, env, whys)
+    res = [found.get(id(n), (None, [])) for n in slot_nodes.values()]
+    from ..resolve import inline_locals, expand
+    shown = "; ".join(f"`{s_}`" + (f" = `{src(expand(n, inline_locals(col)))[:70]}`" if isinstance(n, ast.Name) else "")
+                      for s_, n in slot_nodes.items())
+    # AUDIT: VIOLATED = (1) the expression IS the subscript of the slot axis in a store into the numpy table (found structurally by
+    # _row_writes, allocation recognised as a numpy array); (2) its kind is `float` by the rules of _Kinds.of, every one of which is a
+    # fact of Python / numpy scalar arithmetic (a construct that is not modelled gives `unknown`, never `float`); (3) the float
+    # leaves are parameters documented / annotated float in collect itself, or attributes whose EVERY binding in the class is a
+    # parameter documented float (or a float literal).  Anything else is UNDECIDED.
+    if all(k == _INT for k, _ in res):
+        chk.ob("E6-slot-index-integral", col, what, True, f"the slot index {shown} is an integer whatever the documented types of the "
+               "arguments: the time / step chain passes through an integer conversion (or uses integers only) before it subscripts the table",
+               file=F, func=Q + "collect")
+    elif any(k == _FLT for k, _ in res):
+        leaves = [l_ for k, ls in res if k == _FLT for l_ in ls]
+        because = "; ".join(f"`{t_}` ({w_})" for t_, w_ in list(dict.fromkeys(leaves))[:3])
+        chk.ob("E6-slot-index-integral", col, what, False,
+               f"the slot index {shown} is a FLOAT for the documented argument types: {because}; `//`, `%` and `/` of a float give a float "
+               "(7.0 // 2 == 3.0) and nothing converts the result to an integer before it subscripts the numpy table, so the first store "
+               "`self.diagnostics[row, slot] = ...` raises IndexError (only integers and slices are valid indices).  Float floor "
+               "division of an accumulated time also undershoots (0.7999999999999999 // 0.1 == 7.0): two steps can land in one slot",
+               file=F, func=Q + "collect", facts={"slot": shown, "float_leaves": [t_ for t_, _ in leaves]})
+    else:
+        chk.ob("E6-slot-index-integral", col, what, None, f"whether the slot index {shown} is an integer was not established: the types of "
+               "the values it is computed from are not documented (annotation / numpydoc) or it is computed with constructs whose "
+               "result type is not modelled", file=F, func=Q + "collect")
+
+
 def collector(chk):
     folded = fold_named_ints(chk.mod(U.DIAG))
     if folded:
@@ -1746,6 +2270,14 @@ def collector(chk):
                        ("norm", ROW_SPEC[k][0], ROW_SPEC[k][1], ROW_SPEC[k][2], ROW_SPEC[k][3], ROW_SPEC[k][2], ROW_SPEC[k][4])
                        for k in range(1, 8)]
     rows = _row_writes(col)
+    # AUDIT ("... is never written" / "... is not written to the table"): every store of collect into the table is in collect itself:
+    # a method of the collector called from collect that touches the table (or that is not defined in the class) may write rows
+    cls_c = parent(col) if isinstance(parent(col), ast.ClassDef) else None
+    for c in ast.walk(col):
+        if isinstance(c, ast.Call) and isinstance(c.func, ast.Attribute) and src(c.func.value) == "self" and rows is not None:
+            m_ = next((st_ for st_ in (cls_c.body if cls_c is not None else []) if isinstance(st_, ast.FunctionDef) and st_.name == c.func.attr), None)
+            if m_ is None or any(isinstance(x, ast.Attribute) and src(x) == "self.diagnostics" for x in ast.walk(m_)):
+                rows = None
     row_of = {}                 # documented quantity j -> row of the table that holds it
     if rows is not None and not rows:
         # no store into the table was recognised at all (it may be written through other attributes that are views of it)
@@ -1768,8 +2300,11 @@ def collector(chk):
                         scale, v = c_.value, o_
                         break
             got = None
+            if isinstance(v, ast.Name) and v.id not in role:
+                # a local that holds the value: bound once, by a plain assignment or as one element of a tuple assignment
+                v = _local_value(col, v.id) or v
             if isinstance(v, ast.Name):
-                got = ("t",) if role.get(v.id) == "t" else ("name", src(v))
+                got = ("t",) if role.get(v.id) == "t" else None
             elif isinstance(v, ast.Call) and isinstance(v.func, ast.Attribute) and len(v.args) + len(v.keywords) <= 1:
                 recv, meth = v.func.value, v.func.attr
                 arg = (v.args + [kw.value for kw in v.keywords] + [None])[0]
@@ -1784,6 +2319,9 @@ def collector(chk):
                            (f" (resolved to {got}: the class, grid or layout of the norm object was not followed)" if got else ""))
                 continue
             held[k] = got
+            # AUDIT: the value stored is a literal constant times the call of a norm object's method (recognised as a documented
+            # quantity); the norm classes are decided on their own (their weights times the method's factor multiply to 1), so a
+            # constant applied on top of it here scales the stored local diagnostic
             if got in WANT and scale is not None and scale != 1:
                 bad.append(f"row {k} ({ROW_NAME[WANT.index(got)]}) is stored scaled by {scale}: `{src(rows[k][1])[:70]}` - the local "
                            "diagnostic that is summed is no longer the quadrature of the field (a factor belongs into the "
@@ -1841,7 +2379,51 @@ def collector(chk):
                 hooks[a_] = S_
         n_ = NpSym(env={"int": lambda z: z, "floor": sp.floor}, hooks=hooks)
         from ..core import names_in
-        if tname not in names_in(e_):
+        # attributes that collect itself binds once, in its own block, stand for the value bound there (`self._step = int(t // dt)`
+        # followed by `self._step % saveStep` is the same slot as with a local)
+        own_attrs = {}
+        for st_ in col.body:
+            if isinstance(st_, ast.Assign) and len(st_.targets) == 1 and isinstance(st_.targets[0], ast.Attribute) and \
+                    src(st_.targets[0].value) == "self":
+                own_attrs.setdefault(src(st_.targets[0]), []).append(st_.value)
+        nbind = {}
+        for w_ in ast.walk(col):
+            for t_ in ast.walk(w_) if isinstance(w_, (ast.Assign, ast.AugAssign, ast.AnnAssign, ast.For, ast.withitem, ast.NamedExpr)) else []:
+                if isinstance(t_, ast.Attribute) and isinstance(t_.ctx, ast.Store) and src(t_.value) == "self":
+                    nbind[src(t_)] = nbind.get(src(t_), 0) + 1
+        attr_env = {a_: expand(v_[0], inline_locals(col)) for a_, v_ in own_attrs.items() if len(v_) == 1 and nbind.get(a_) == 1}
+        if attr_env and any(isinstance(x, ast.Attribute) and src(x) in attr_env for x in ast.walk(e_)):
+            import copy as _copy
+            e_ = ast.fix_missing_locations(_SubstSrc({k: _copy.deepcopy(v) for k, v in attr_env.items()}).visit(_copy.deepcopy(e_)))
+        # what depends on the time handed to collect: names and attributes assigned (anywhere in collect, in any form) from a value
+        # that mentions the time or something that depends on it
+        dep = {tname}
+        changed_ = True
+        while changed_:
+            changed_ = False
+            for w_ in ast.walk(col):
+                val_ = getattr(w_, "value", None) if isinstance(w_, (ast.Assign, ast.AugAssign, ast.AnnAssign, ast.NamedExpr)) else \
+                    getattr(w_, "iter", None) if isinstance(w_, (ast.For, ast.comprehension)) else \
+                    getattr(w_, "context_expr", None) if isinstance(w_, ast.withitem) else None
+                if val_ is None:
+                    continue
+                reads = {x.id for x in ast.walk(val_) if isinstance(x, ast.Name)} | \
+                    {src(x) for x in ast.walk(val_) if isinstance(x, ast.Attribute) and src(x.value) == "self"}
+                if not (reads & dep):
+                    continue
+                tg_ = w_.targets if isinstance(w_, ast.Assign) else [getattr(w_, "target", None) or getattr(w_, "optional_vars", None)]
+                for t_ in tg_:
+                    for x in ast.walk(t_) if t_ is not None else []:
+                        nm_ = x.id if isinstance(x, ast.Name) else src(x) if isinstance(x, ast.Attribute) and src(x.value) == "self" else None
+                        if nm_ and isinstance(getattr(x, "ctx", None), ast.Store) and nm_ not in dep:
+                            dep.add(nm_)
+                            changed_ = True
+        slot_reads = names_in(e_) | {src(x) for x in ast.walk(e_) if isinstance(x, ast.Attribute) and src(x.value) == "self"}
+        calls_self = any(isinstance(x, ast.Call) and isinstance(x.func, ast.Attribute) and src(x.func.value) == "self" for x in ast.walk(e_))
+        # AUDIT: VIOLATED "does not depend on the time" = nothing the slot expression reads (names, attributes of self) is assigned in
+        # collect - directly or through other names / attributes, in any statement form - from a value that mentions the time, and it
+        # calls no method of the collector (which could look the time up elsewhere)
+        if not (slot_reads & dep) and not calls_self:
             # recognised wrong form: the slot does not depend on the time handed to collect
             state = sorted({src(a_) for a_ in ast.walk(e_) if isinstance(a_, ast.Attribute) and src(a_.value) == "self" and
                             any(isinstance(w_, (ast.AugAssign, ast.Assign)) and any(src(t_) == src(a_) for t_ in
@@ -1871,8 +2453,13 @@ def collector(chk):
             if isinstance(got, sp.Basic) and got.func == MOD and len(got.args) == 2:
                 num, mod_ = got.args
                 d_ = sp.simplify(mod_ - cols_)
+                guarded = _step_with_tolerance(num, T_ / DT_)
                 if sp.simplify(num - step) == 0 and d_ == 0:
                     oks_, whys_ = True, "slot = (t // dt) mod (number of slots allocated): consecutive steps fill consecutive slots and wrap with the table"
+                elif guarded and d_ == 0:
+                    oks_, whys_ = True, (f"slot = ({guarded}) mod (number of slots allocated): the step number t / dt rounded down, with a guard "
+                                         "against a quotient that lies just below the integer it stands for (t accumulated as t += dt); "
+                                         "consecutive steps fill consecutive slots and wrap with the table")
                 elif d_.is_number and d_ != 0:
                     oks_, whys_ = False, (f"the slot index `{src(e_)[:60]}` wraps modulo {mod_} but the table has {cols_} slots: " +
                                           ("slots past the end of the table are addressed" if d_ > 0 else
@@ -1883,12 +2470,14 @@ def collector(chk):
                     whys_ = f"slot = ({num}) mod {mod_}: the step number is not written as t // dt (difference {dn}): not decided"
                 else:
                     whys_ = f"slot index `{src(e_)[:60]}`: modulus {mod_} not comparable with the {cols_} slots allocated"
-            elif isinstance(got, sp.Basic) and not got.has(MOD) and sp.simplify(got - step) == 0:
+            elif isinstance(got, sp.Basic) and not got.has(MOD) and sp.simplify(got - step) == 0 and sp.simplify(cols_ - S_) == 0:
+                # AUDIT: the table has saveStep slots (read off the allocation) and the step number grows without bound
                 oks_, whys_ = False, (f"the slot index `{src(e_)[:60]}` is the step number itself, not reduced modulo the {cols_} slots of the "
                                       "table: after that many steps the store runs past the table")
             else:
                 whys_ = f"slot index `{src(e_)[:60]}` = {got} not recognised"
     chk.ob("E6-time-slot", col, "collect: slot of the step", oks_, whys_, file=F, func=Q + "collect")
+    slot_index_integral(chk, col, init, rows if role else None, F, Q)
     # ---- allocation: a row for everything that is written
     alloc = [n for n in ast.walk(init) if isinstance(n, ast.Assign) and src(n.targets[0]) == "self.diagnostics"]
     oka, whya = None, "allocation of self.diagnostics not recognised"
@@ -1896,9 +2485,15 @@ def collector(chk):
             and alloc[0].value.args and isinstance(alloc[0].value.args[0], (ast.List, ast.Tuple)) and len(alloc[0].value.args[0].elts) == 2:
         r_, s_ = alloc[0].value.args[0].elts
         if isinstance(r_, ast.Constant) and isinstance(r_.value, int) and src(s_) in ("saveStep", "self.saveStep"):
-            need = max(list(rows) + [7]) + 1 if rows else 8
-            oka = r_.value >= need
-            whya = f"{r_.value} rows x saveStep slots" if oka else f"only {r_.value} rows are allocated for the {need} rows that are written"
+            # AUDIT: VIOLATED = a store of collect into a row (constant row index, recognised by _row_writes) past the rows allocated;
+            # when the rows written were not recognised only the documented eight can be confirmed
+            if rows:
+                need = max(rows) + 1
+                oka = r_.value >= need
+                whya = f"{r_.value} rows x saveStep slots" if oka else f"only {r_.value} rows are allocated for the {need} rows that are written"
+            else:
+                oka = True if r_.value >= 8 else None
+                whya = f"{r_.value} rows x saveStep slots" if oka else f"{r_.value} rows are allocated; the rows collect writes were not recognised"
     chk.ob("E6-diagnostic-rows", alloc[0] if alloc else init, "diagnostics table: rows x slots", oka, whya, file=F, func=Q + "__init__")
     # ---- reductions
     reds, und, ranges = {}, [], {}
@@ -1906,6 +2501,23 @@ def collector(chk):
     calls.sort(key=lambda c: (c.lineno, c.col_offset))
     badr = []
     inst = []
+    # AUDIT (all "row ... is never reduced / reduced with ..." verdicts): every reduction of the table is one of the `calls`: any
+    # other call whose name speaks of a reduction (Ireduce, reduce, Reduce_scatter, ...) and any method of the collector called from
+    # reduce that issues reductions or touches the table (or is not found in the class) makes the enumeration incomplete
+    cls0_ = parent(red) if isinstance(parent(red), ast.ClassDef) else None
+    own_methods = {st_.name: st_ for st_ in cls0_.body if isinstance(st_, ast.FunctionDef)} if cls0_ is not None else {}
+    for c in ast.walk(red):
+        if not (isinstance(c, ast.Call) and isinstance(c.func, ast.Attribute)):
+            continue
+        if "reduce" in c.func.attr.lower() and c.func.attr not in ("Reduce", "Allreduce") and not src(c.func.value).startswith(("np.", "numpy.", "functools")):
+            und.append(f"`{src(c)[:60]}`: a reduction issued in a form that is not followed (rows not enumerated)")
+        if src(c.func.value) == "self":
+            m_ = own_methods.get(c.func.attr)
+            if m_ is None:
+                und.append(f"`{src(c)[:50]}` calls a method that is not defined in the class: what it reduces is not followed")
+            elif m_ is not red and any((isinstance(x, ast.Call) and isinstance(x.func, ast.Attribute) and "reduce" in x.func.attr.lower()) or
+                                       (isinstance(x, ast.Attribute) and src(x) == "self.diagnostics") for x in ast.walk(m_)):
+                und.append(f"`{src(c)[:50]}`: reductions made in the helper {m_.name} are not enumerated")
     for c in calls:
         cs = _loop_instances(red, c)
         if cs is None:
@@ -1983,9 +2595,19 @@ def collector(chk):
             # the receive block: row k of the block receives row span[0] + k of the table; the result array of a row is the
             # attribute the constructor bound to that row view of the block
             blk = rb.attr if isinstance(rb, ast.Attribute) and src(rb.value) == "self" else None
+            boff = 0
+            if blk is None and isinstance(rb, ast.Subscript) and isinstance(rb.value, ast.Attribute) and src(rb.value.value) == "self":
+                # a range of rows of a larger block: self.B[a:b] / self.B[a:b, :] receives the rows a .. b-1 of B
+                r0_ = rb.slice.elts[0] if isinstance(rb.slice, ast.Tuple) and len(rb.slice.elts) == 2 and \
+                    _range_text(rb.slice.elts[1]) == ":" else rb.slice if not isinstance(rb.slice, ast.Tuple) else None
+                if isinstance(r0_, ast.Slice) and r0_.step is None and r0_.upper is not None and \
+                        all(x is None or (isinstance(x, ast.Constant) and type(x.value) is int and x.value >= 0) for x in (r0_.lower, r0_.upper)):
+                    a_, b_ = (r0_.lower.value if r0_.lower is not None else 0), r0_.upper.value
+                    if b_ - a_ == span[1] - span[0] and block_rows.get(rb.value.attr, 0) >= b_:
+                        blk, boff = rb.value.attr, a_
             op = src(b["op"]) if "op" in b else "MPI.SUM"
             root = src(b["root"]) if "root" in b else "0"
-            if blk is None or block_rows.get(blk) != span[1] - span[0] or srange != ":" or span[1] <= span[0]:
+            if blk is None or (boff == 0 and isinstance(rb, ast.Attribute) and block_rows.get(blk) != span[1] - span[0]) or srange != ":" or span[1] <= span[0]:
                 und.append(f"`{src(c)[:70]}` reduces the rows {span[0]}..{span[1] - 1} at once: the receive block `{src(rb) if rb is not None else '?'}` "
                            "was not recognised as a block of as many rows allocated by the constructor")
                 continue
@@ -1993,7 +2615,7 @@ def collector(chk):
                 und.append(f"the receive block self.{blk} is re-bound in {rebinds(blk)[0][1].name}")
                 continue
             for k_ in range(span[1] - span[0]):
-                names = views_of.get((blk, k_), [])
+                names = views_of.get((blk, boff + k_), [])
                 if len(names) != 1:
                     und.append(f"`{src(c)[:60]}`: row {k_} of the receive block self.{blk} (row {span[0] + k_} of the table) is not handed "
                                "out as one result array by the constructor")
@@ -2002,7 +2624,7 @@ def collector(chk):
                     badr.append(f"row {span[0] + k_} is reduced twice")
                 reds[span[0] + k_] = (names[0], op, root, c)
                 ranges.setdefault(span[0] + k_, srange)
-                captured[span[0] + k_] = (names[0], f"the constructor binds self.{names[0]} to the row view self.{blk}[{k_}] of the block "
+                captured[span[0] + k_] = (names[0], f"the constructor binds self.{names[0]} to the row view self.{blk}[{boff + k_}] of the block "
                                                     f"that `{src(c)[:50]}` receives into")
             continue
         if isinstance(rb, ast.Subscript) and isinstance(rb.value, ast.Attribute) and src(rb.value.value) == "self" and \
@@ -2029,6 +2651,9 @@ def collector(chk):
         if where is not None and where != red.name:
             captured[row] = (rb.attr, f"the receive array of row {row} is an entry of the table `{getattr(rb, '_captured_table', '?')}` "
                                       f"built in {where}: the array object self.{rb.attr} named at that time")
+    # AUDIT (binding time): the receive array of the row was fixed BEFORE reduce runs (an entry of a table built by another method, a
+    # row view handed out by the constructor), and a method other than the constructor assigns the attribute itself (not its
+    # elements): from then on the attribute names another object than the one the reduction fills
     for row, (attr, how) in sorted(captured.items()):
         rbs = rebinds(attr)
         if rbs:
@@ -2091,18 +2716,35 @@ def collector(chk):
                 tgt = tgt.value
             if isinstance(arg, ast.Attribute) and src(arg.value) == "self":
                 sq_ranges[arg.attr] = sq_range
-            if fn_ is col or "self.diagnostics" in src(arg):
+            # AUDIT: "square root of the local contribution before the global sum" = the root is taken of an entry of the local table,
+            # or (in collect) of the value of a norm object that is then stored into the table; a square root that has nothing to do
+            # with the table (another local quantity) is not a statement about the diagnostics
+            in_store = isinstance(st, ast.Assign) and any("self.diagnostics" in src(t_) for t_ in st.targets)
+            of_norm = any(isinstance(x, ast.Call) and isinstance(x.func, ast.Attribute) and isinstance(x.func.value, ast.Attribute) and
+                          src(x.func.value.value) == "self" and x.func.value.attr in ctors for x in ast.walk(arg))
+            feeds = False
+            if fn_ is col and isinstance(st, ast.Assign) and len(st.targets) == 1 and isinstance(st.targets[0], ast.Name):
+                nm_ = st.targets[0].id
+                feeds = any(isinstance(w_, ast.Assign) and any("self.diagnostics" in src(t_) for t_ in w_.targets) and
+                            nm_ in {x.id for x in ast.walk(w_.value) if isinstance(x, ast.Name)} for w_ in ast.walk(col))
+            if "self.diagnostics" in src(arg) or (fn_ is col and (in_store or feeds) and of_norm):
                 bads.append(f"`{src(st)[:70]}` takes a square root of the local contribution before the global sum: the sum over processes of "
                             "square roots is not the root of the summed squares")
-            elif isinstance(arg, ast.Attribute) and src(arg.value) == "self" and tgt is not None and src(tgt) == src(arg):
-                if st.lineno <= last_reduce:
-                    bads.append(f"`{src(st)[:70]}` comes before the reduction that fills `{src(arg)}`")
-                else:
-                    sq.add(arg.attr)
-            elif isinstance(st, ast.Expr) and isinstance(n, ast.Call) and n is st.value and isinstance(arg, ast.Attribute) and \
-                    src(arg.value) == "self" and any(k_.arg == "out" and src(k_.value) == src(arg) for k_ in n.keywords):
-                # np.sqrt(self.X, out=self.X): in place
-                if st.lineno <= last_reduce:
+            elif fn_ is col and (in_store or feeds):
+                unds.append(f"`{src(st)[:70]}`: a square root enters a value stored into the table; what it is taken of was not recognised")
+            elif fn_ is col:
+                continue                                # a square root that does not reach the table
+            elif isinstance(arg, ast.Attribute) and src(arg.value) == "self" and \
+                    ((tgt is not None and src(tgt) == src(arg)) or
+                     (isinstance(st, ast.Expr) and isinstance(n, ast.Call) and n is st.value and
+                      any(k_.arg == "out" and src(k_.value) == src(arg) for k_ in n.keywords))):
+                # self.X = sqrt(self.X) / np.sqrt(self.X, out=self.X): in place, after the reduction that fills THIS array
+                fills = [v_[3].lineno for v_ in reds.values() if v_[0] == arg.attr]
+                if not fills:
+                    if arg.attr in {v_[0] for v_ in reds.values()} or und:
+                        unds.append(f"`{src(st)[:70]}`: the reduction that fills `{src(arg)}` was not identified")
+                    # else: an array that is not the result array of any row - not one of the documented quantities
+                elif st.lineno <= max(fills):
                     bads.append(f"`{src(st)[:70]}` comes before the reduction that fills `{src(arg)}`")
                 else:
                     sq.add(arg.attr)
@@ -2145,6 +2787,9 @@ def collector(chk):
         from ..resolve import inline_locals as _il, expand as _ex
         env_g = _il(gl)
         got = [src(_ex(c_, env_g)) for c_ in cols]
+        # AUDIT (relational): `want` is built from what collect and reduce were FOUND to do (row of each quantity, result array of each
+        # row) - the comparison is skipped unless all eight rows and their reductions were identified; `got` is the sequence of
+        # expressions in the order of the fields of the format string / f-string
         if got == want:
             okg, whyg = True, "columns are printed in the documented order from the reduced arrays of slot i"
         elif sorted(got) == sorted(want):
@@ -2157,7 +2802,27 @@ def collector(chk):
                                 f"contribution of one process: {[g for g in got if g.startswith('self.diagnostics[')]}")
         elif len(got) == len(want) and all(g == w or g.split("[")[0] in {w_.split("[")[0] for w_ in want} for g, w in zip(got, want)):
             wrong = [(g, w) for g, w in zip(got, want) if g != w]
-            okg, whyg = False, f"columns read the wrong array or slot: {wrong[:3]}"
+
+            def parts(text):
+                """'self.X[i]' -> ('self.X', 'i') ; 'self.diagnostics[0, i]' -> ('self.diagnostics[0,', 'i')"""
+                try:
+                    e0 = ast.parse(text, mode="eval").body
+                except SyntaxError:
+                    return None
+                if not isinstance(e0, ast.Subscript):
+                    return None
+                if isinstance(e0.slice, ast.Tuple) and len(e0.slice.elts) == 2:
+                    return f"{src(e0.value)}[{src(e0.slice.elts[0])},", src(e0.slice.elts[1])
+                return src(e0.value), src(e0.slice)
+            pg, pw = [parts(g) for g in got], [parts(w) for w in want]
+            # AUDIT: "wrong slot" = the columns of ONE line are read at different slots.  When every column reads its own array (in
+            # the documented order) at one and the same slot expression that is not the bare parameter, getLine numbers its lines in
+            # another way than the slots (a convention with its callers, which is not followed here)
+            if all(x is not None for x in pg + pw) and [x[0] for x in pg] == [x[0] for x in pw] and len({x[1] for x in pg}) == 1:
+                okg, whyg = None, (f"every column reads its own array at the slot `{pg[0][1]}` (not `{i_}`): how the callers of getLine number "
+                                   "the lines was not followed")
+            else:
+                okg, whyg = False, f"columns read the wrong array or slot: {wrong[:3]}"
         else:
             whyg = f"printed columns {got} not recognised"
     chk.ob("E6-diagnostic-rows", gl, "getLine: column order", okg, whyg, file=F, func=Q + "getLine")
@@ -2261,16 +2926,21 @@ def _resolve_ifexp(e):
         return [([], e)]
     out = []
     v = _fold(n.test)
+    pos = next(i for i, x in enumerate(ast.walk(e)) if x is n)
     for pol in (True, False):
         if v is not None and v != pol:
             continue
+        # each alternative is made on a PRIVATE copy of the expression (a NodeTransformer rewrites the tree it visits in place:
+        # the second alternative must not start from the tree the first one has already resolved)
+        ec = copy.deepcopy(e)
+        nc = list(ast.walk(ec))[pos]
 
         class R(ast.NodeTransformer):
-            def visit_IfExp(self, x, pol=pol):
-                if x is n:
-                    return copy.deepcopy(x.body if pol else x.orelse)
+            def visit_IfExp(self, x, pol=pol, nc=nc):
+                if x is nc:
+                    return x.body if pol else x.orelse
                 return self.generic_visit(x)
-        e2 = R().visit(e) if e is not n else copy.deepcopy(n.body if pol else n.orelse)
+        e2 = R().visit(ec) if ec is not nc else (nc.body if pol else nc.orelse)
         for cs, e3 in _resolve_ifexp(copy.deepcopy(e2)):
             out.append((([] if v is not None else [(n.test, pol)]) + cs, e3))
     return out
@@ -2556,7 +3226,19 @@ def _extent_is_end_minus_start(chk):
 
 def _slice_index_rule(chk, m, body_fn, q):
     """inside the loop over (axis number, fixed global index): the axis carrying the dimension, the ownership test
-    start <= fix < end on that axis, and the local index fix - start -> (verdict, why, name of the index list)"""
+    start <= fix < end on that axis, and the local index fix - start -> (verdict, why, name of the index list)
+
+    AUDIT of the negative verdicts (each is returned only after the loop `for a, b in zip(<axis>, <fixValue>)` over the two PARAMETERS
+    of that name was identified, with exactly one store into an index list inside it and loop variables that are not re-bound):
+      * the list is indexed by the dimension number / by dims_order[dimension]: read off the subscript of the store, with the loop
+        name traced to the parameter `axis` (documented: dimension numbers);
+      * the sequences are paired with the wrong loop names: read off the zip;
+      * the global index is stored as a local index / the start of another axis is subtracted: read off the value stored;
+      * no ownership test at all: no enclosing `if`, no earlier exit of the pass, only tests on the parameters around the loop, and
+        the index list is used to subscript self._f without a test in between;
+      * boundaries off by one: the guards (with their polarity) form a conjunction of comparisons that are linear in fix / start / end
+        (extent = end - start read off the layout class) and differ from start <= fix < end by integer constants only.
+    Everything else is UNDECIDED."""
     from ..resolve import inline_locals, expand
     env = {k: v for k, v in inline_locals(body_fn).items() if isinstance(v, (ast.Subscript, ast.Attribute, ast.BinOp, ast.Name))}
     loops = [n for n in ast.walk(body_fn) if isinstance(n, ast.For) and isinstance(n.target, ast.Tuple) and len(n.target.elts) == 2
@@ -2778,6 +3460,9 @@ class _Sorts:
                 self.env[a.arg] = ("seq", _GI)
 
     def need(self, node, idx, want, table, maps):
+        # AUDIT: a lookup is reported only when the sort of the index is KNOWN (derived from the parameters `axis` = dimension numbers,
+        # `fixValue` = global indices, from dims_order / inv_dims_order and from enumerate over per-axis tables) and is the other of
+        # the two sorts; 0 .. ndims-1 from range(ndims) is both and is never reported
         got = self.sort(idx)
         if got in (_AX, _DM):
             self.checked += 1
@@ -2807,7 +3492,8 @@ class _Sorts:
             if f == "range" and len(e.args) == 1 and (src(e.args[0]) in ("self._f.ndim", "self._layout.ndims", "self._nDims") or
                                                      (isinstance(e.args[0], ast.Call) and src(e.args[0].func) == "len" and e.args[0].args
                                                       and self.axis_indexed(e.args[0].args[0]))):
-                return ("seq", _AX)
+                # 0 .. ndims-1 numbers the axes of the block AND the dimensions alike: which of the two the loop means is not known
+                return ("seq", None)
             if f == "dict" and len(e.args) == 1:
                 s_ = self.sort(e.args[0])
                 if isinstance(s_, tuple) and s_[0] == "seq" and isinstance(s_[1], tuple) and s_[1][0] == "tuple" and len(s_[1][1]) == 2:
@@ -3044,10 +3730,37 @@ def extrema(chk):
             chk.note("loops left early read as flag loops: " + "; ".join(latched))
         # a query: nothing reachable from the grid is modified, so the answer does not depend on earlier requests
         muts = [x for g in group for x in lints.shared_state_mutations(g, lambda s_: s_.startswith("self."))]
-        chk.ob("E7-query-purity", muts[0][0] if muts else fn, f"Grid.{m} modifies nothing of the grid", not muts,
+        # AUDIT: "an earlier request changes the answer of a later one" = the state that is modified is also READ by the query (outside
+        # the modifying statement itself): a store into something the query never looks at (a log, a counter) does not change
+        # what it reports -> UNDECIDED
+        okq = True
+        if muts:
+            okq = None
+            import re as _re
+            for node_, desc_ in muts:
+                tnodes = []
+                if isinstance(node_, ast.Assign):
+                    tnodes = list(node_.targets)
+                elif isinstance(node_, ast.AugAssign):
+                    tnodes = [node_.target]
+                elif isinstance(node_, ast.Call) and isinstance(node_.func, ast.Attribute):
+                    tnodes = [node_.func.value]
+                roots_ = {src(x) for t_ in tnodes for x in ast.walk(t_) if isinstance(x, ast.Attribute) and src(x.value) == "self"}
+                # the stored state a local alias is a view of (named by the alias analysis)
+                for r_ in _re.findall(r"stored `([^`]+)`", desc_):
+                    try:
+                        roots_ |= {src(x) for x in ast.walk(ast.parse(r_, mode="eval")) if isinstance(x, ast.Attribute) and src(x.value) == "self"}
+                    except SyntaxError:
+                        pass
+                own_ = {id(x) for t_ in tnodes for x in ast.walk(t_)}
+                if any(isinstance(x, ast.Attribute) and src(x) in roots_ and id(x) not in own_ and isinstance(x.ctx, ast.Load)
+                       for g in group for x in ast.walk(g)):
+                    okq = False
+        chk.ob("E7-query-purity", muts[0][0] if muts else fn, f"Grid.{m} modifies nothing of the grid", okq,
                "the slice index is built in a fresh local list" if not muts else "; ".join(d for _, d in muts)[:300] +
-               " - the index list is kept by the grid: an axis fixed by an earlier request stays fixed in later ones, which then report "
-               "the extremum of the intersection of the slices", file=U.GRID, func=q)
+               (" - state kept by the grid and read again by the query: what an earlier request stored there (an axis fixed in a kept index "
+                "list, say) is still there in later ones, which then report the extremum of another set of points" if okq is False else
+                " - whether the query reads that state again was not established"), file=U.GRID, func=q)
         # ---- ownership flag: latched as soon as one fixed index is outside the local block
         flag = None
         okl, whyl = None, "no ownership flag (constant before the loop over the fixed axes, changed inside, read after) was found"
@@ -3056,27 +3769,42 @@ def extrema(chk):
             if fl:
                 flag = fl
                 name, c0, loop, asg = fl
-                wrong = None
+                wrong, unclear = None, None
+                # AUDIT: "only the last axis counts" = an assignment inside the loop gives the flag a value that does not depend on its
+                # previous value (a plain overwrite: the flag's own name does not occur on the right-hand side, and the statement is
+                # not an augmented assignment), and the loop is not left at the first failing axis; any other update that is not one
+                # of the recognised accumulating forms is UNDECIDED
+                leaves_early = any(isinstance(x, (ast.Break, ast.Return)) for x in ast.walk(loop)) or \
+                    any(isinstance(x, ast.Name) and x.id.startswith("_no_pass_left") for x in ast.walk(loop))
                 for a_ in asg:
                     v_ = a_.value
+                    mentions_self = isinstance(a_, ast.AugAssign) or any(isinstance(x, ast.Name) and x.id == name for x in ast.walk(v_))
                     if not isinstance(c0, bool):
                         # counter: only `+= positive constant` (or name = name + positive constant) keeps what was counted
                         from ..core import increment_of
                         inc = increment_of(a_)
                         if not (inc and inc[0] == name and isinstance(inc[1], ast.Constant) and type(inc[1].value) is int and inc[1].value > 0):
-                            wrong = a_
+                            if mentions_self or leaves_early:
+                                unclear = a_
+                            else:
+                                wrong = a_
                         continue
                     if isinstance(a_, ast.AugAssign):
                         if not isinstance(a_.op, (ast.BitAnd if c0 else ast.BitOr)):
-                            wrong = a_
+                            unclear = a_
                     elif isinstance(v_, ast.Constant) and v_.value is (not c0):
                         continue
                     elif isinstance(v_, ast.BoolOp) and isinstance(v_.op, ast.And if c0 else ast.Or) and \
                             any(isinstance(x, ast.Name) and x.id == name for x in v_.values):
                         continue
+                    elif mentions_self or leaves_early:
+                        unclear = a_
                     else:
                         wrong = a_
-                if wrong is None and not isinstance(c0, bool):
+                if wrong is None and unclear is not None:
+                    okl, whyl = None, (f"`{src(unclear)[:70]}` updates {name} inside the loop over the fixed axes in a form that is not recognised "
+                                       "as accumulating (or the loop is left early): whether every fixed axis counts was not established")
+                elif wrong is None and not isinstance(c0, bool):
                     okl, whyl = True, (f"{name} starts at 0 and is only counted up inside the loop over fixed axes: it is 0 after the loop iff "
                                        "every fixed index is local")
                 elif wrong is None:
@@ -3103,8 +3831,11 @@ def extrema(chk):
                         if isinstance(pre, ast.Assign) and len(pre.targets) == 1 and isinstance(pre.targets[0], ast.Name) and \
                                 isinstance(pre.value, ast.Constant) and isinstance(pre.value.value, bool) and pre.targets[0].id not in stored_in:
                             nm = pre.targets[0].id
+                            # AUDIT: the test after the loop decides what is handed to the reduction (a reduction call is governed by it)
                             tested = [s_ for s_ in blk[k_ + 1:] if isinstance(s_, ast.If) and any(isinstance(x, ast.Name) and x.id == nm
-                                                                                                 for x in ast.walk(s_.test))]
+                                                                                                 for x in ast.walk(s_.test)) and
+                                      any(isinstance(x, ast.Call) and isinstance(x.func, ast.Attribute) and "reduce" in x.func.attr.lower()
+                                          for x in ast.walk(s_))]
                             if tested:
                                 okl, whyl = False, (f"`{nm}` is set to {pre.value.value} before the loop over the fixed axes and tested after it "
                                                     f"(`{src(tested[0].test)[:40]}`) but never changed inside the loop: a process that does not own "
@@ -3138,6 +3869,10 @@ def extrema(chk):
         except _NoPaths as e:
             chk.ob("E7-neutral-element", fn, f"Grid.{m}: contributions", None, f"paths of the method not followed: {e}", file=U.GRID, func=q)
             continue
+        # AUDIT (E7-neutral-element): every path of the method (helpers of the class followed, conditional expressions split on private
+        # copies) with the conditions taken on it; a contribution is judged only on paths all of whose conditions are recognised
+        # (emptiness of the block, the ownership flag with its polarity, which parameters are None); `literal` = a constant written in
+        # the call; anything not recognised goes to `unknown` (UNDECIDED)
         bad, unknown, kinds = [], [], set()
         for conds, events, ret in paths:
             if not events:
@@ -3186,7 +3921,17 @@ def extrema(chk):
                         unrec.append(ts)
             for c in events:
                 a0 = c.args[0] if c.args else next((k.value for k in c.keywords if k.arg in ("sendobj", "sendbuf")), None)
-                opk = [src(k.value) for k in c.keywords if k.arg == "op"] or ([src(c.args[1])] if len(c.args) > 1 else [])
+                # reduce / allreduce(sendobj, op, root) ; Reduce / Allreduce(sendbuf, recvbuf, op, root)
+                op_pos = 1 if c.func.attr in ("reduce", "allreduce") else 2
+                opk = [src(k.value) for k in c.keywords if k.arg == "op"] or ([src(c.args[op_pos])] if len(c.args) > op_pos else [])
+                if any(isinstance(a_, ast.Starred) for a_ in c.args) or any(k.arg is None for k in c.keywords):
+                    unknown.append(f"`{src(c)[:50]}` passes its arguments by unpacking")
+                    continue
+                # AUDIT: "does not reduce with MPI.MIN / MPI.MAX" = the operation is written in the call as ANOTHER MPI constant, or no
+                # operation is given (mpi4py's default is the sum); an operation held in a name / looked up in a table is not followed
+                if opk and not opk[0].startswith("MPI."):
+                    unknown.append(f"`{src(c)[:50]}`: the reduction operation `{opk[0]}` is not written in the call")
+                    continue
                 if not opk or opk[0] != op:
                     bad.append(f"`{src(c)[:60]}` does not reduce with {op}" + ("" if opk else " (the default is a sum)"))
                 if a0 is None:
@@ -3357,14 +4102,21 @@ def run(chk):
         "against the local extent = end - start, read off the layout class, is the same test), "
         "fixed global index -> axis and local index (ownership test in positive or negated form), a sort inference keeping dimension "
         "numbers and axis positions apart in every lookup (dims_order / inv_dims_order / starts / ends / index list / tables keyed by "
-        "the caller's axis numbers), query purity; the slot of collect is (t // dt) modulo the number of slots allocated. The slot<->step relation of the driver's "
-        "printing and the analytic volume factors are not decided.")
+        "the caller's axis numbers), query purity; the slot of collect is (t // dt) modulo the number of slots allocated (also with a guard against a quotient "
+        "just below an integer: floor(t / dt * (1 + eps)), round(t / dt)), and the slot index is an INTEGER for every documented type of "
+        "the arguments (kinds int / float of scalar expressions: a `//` / `%` / `/` chain on a value documented float stays a float and "
+        "must pass through int(...) or math.floor before it subscripts the numpy table); constructor and norm method are one unit: a "
+        "constant factor may sit in the r weights, the v weights, the volume factor or the method, what is decided is their product, and "
+        "every negative verdict on the constructor requires that the method was read as sum(integrand x _factor1) x _factor2; recognised "
+        "wrong constructs in the constructor are markers that must reach the weights kept by the class. The slot<->step relation of the "
+        "driver's printing and the analytic volume factors are not decided.")
     chk.assumptions += ["theta and z grids are uniform (x_d(k) = a_d + k h_d): the rectangle rule's spacing may be taken between any two "
                         "neighbouring points", "1 <= number of points per block; at least 3 points in r and v"]
     chk.in_file(U.NORMS)
-    placed = weight_tensor(chk)
+    minfo = integrand_info(chk)
+    placed, scales = weight_tensor(chk, minfo)
     weight_windows(chk, placed)
-    integrands(chk)
+    integrands_emit(chk, minfo, scales)
     coordinates_read_only(chk)
     collector(chk)
     extrema(chk)
